@@ -25,7 +25,10 @@ let configs = [
   { dbblack = [ "10" ]; dbwhite = []; keyblack = []; keywhite = [ "a" ]; slots_of = []; lua = true };
   { dbblack = []; dbwhite = []; keyblack = []; keywhite = []; slots_of = [ 0; 3; 7 ]; lua = false };
   { dbblack = []; dbwhite = []; keyblack = []; keywhite = []; slots_of = []; lua = true };
-  { dbblack = []; dbwhite = []; keyblack = [ "redis" ]; keywhite = []; slots_of = [ 1; 2; 5; 6 ]; lua = true } ]
+  { dbblack = []; dbwhite = []; keyblack = [ "redis" ]; keywhite = []; slots_of = [ 1; 2; 5; 6 ]; lua = true };
+  (* lists in which a prefix LONGER than some keys stands before the prefix those keys start with *)
+  { dbblack = []; dbwhite = []; keyblack = [ "user:profile:"; "ab"; "k" ]; keywhite = []; slots_of = []; lua = false };
+  { dbblack = []; dbwhite = [ "13"; "3"; "0" ]; keyblack = []; keywhite = [ "session:long:prefix"; "{user:1}"; "a"; "zz" ]; slots_of = []; lua = false } ]
 
 let key_pool = [| "a"; "ab"; "abc"; "aB"; "Ab1"; "b"; "xab"; "ab\x00\xff"; "k\x00"; "k\x00z"; "k"; "user:"; "user:17"; "user"; "{ab}x"; "{user:1}.z";
                   "redis-shake-checkpoint"; "redis-shake-checkpoint-src"; "redis-shake-checkpoin"; "redis"; "\xfe\x80bin"; "zz" |]
